@@ -1,4 +1,5 @@
 import Proofs.C08Sim
+import Proofs.C08Guard
 
 /-!
 # C08 — fits are equivariant under relabelling and changes of coordinates
@@ -8,7 +9,8 @@ fitters, permutations, re-weighting, uniform weights), `Proofs/C08General.lean` 
 solution of the normal equations of `fit_general` and their transport), `Proofs/C08Move.lean`
 (changes of coordinates: weights, `fit_shifts`, moments of `fit_rscale`, centring),
 `Proofs/C08Rscale.lean` (`rsolve` under translations and under scaling of the moments; the angle),
-`Proofs/C08Sim.lean` (`rsolve` under similarities through its closed forms).  Inputs are in *row form*
+`Proofs/C08Sim.lean` (`rsolve` under similarities through its closed forms), `Proofs/C08Guard.lean`
+(the collinearity guard of `fit_general` under changes of coordinates).  Inputs are in *row form*
 (`Model/Equiv.lean`): a list of rows (matched pair, weight in the `xy` catalogue, weight in the
 `uv` catalogue) and two flags `bx`, `bu` saying which weight arrays are passed, so that all four
 weight modes of the code (none / `wxy` / `wuv` / both) are covered by every statement.
@@ -30,9 +32,10 @@ theorem perm_invariant_shift {rows rows' : List (Row K)} (h : rows.Perm rows') (
   rw [fitShiftsR_eq, fitShiftsR_eq, perm_gnorm h, perm_weightsBad h, perm_shiftVal h, h.length_eq]
 
 /-- … nor `fit_general` -/
-theorem perm_invariant_general (eps : K) {rows rows' : List (Row K)} (h : rows.Perm rows')
-    (bx bu : Bool) : fitGeneralR eps bx bu rows' = fitGeneralR eps bx bu rows := by
-  rw [fitGeneralR_eq, fitGeneralR_eq, perm_weightsBad h, perm_gsumsRow h, h.length_eq]
+theorem perm_invariant_general (eps epsD : K) {rows rows' : List (Row K)} (h : rows.Perm rows')
+    (bx bu : Bool) : fitGeneralR eps epsD bx bu rows' = fitGeneralR eps epsD bx bu rows := by
+  rw [fitGeneralR_eq, fitGeneralR_eq, perm_weightsBad h, perm_gsumsRow h, perm_generalGuardR h,
+    h.length_eq]
 
 /-- … nor `fit_rscale` / `fit_rshift` (any `HasTrig` semantics) -/
 theorem perm_invariant_rscale [HasTrig K] {rows rows' : List (Row K)} (h : rows.Perm rows')
@@ -63,36 +66,25 @@ theorem weight_scale_invariant_rscale [HasTrig K] (bx bu : Bool) (scale : Option
 /-- … nor `fit_general`: the normal equations are homogeneous in the weights, so whenever both
 fits return, they return the same map.  (Only the singularity threshold `eps` of `inv`, 2e-308 in
 the code, is not scale-free: that is why the statement is about returned values.) -/
-theorem weight_scale_invariant_general (eps : K) (heps : 0 < eps) (bx bu : Bool)
+theorem weight_scale_invariant_general (eps epsD : K) (heps : 0 < eps) (bx bu : Bool)
     (rows : List (Row K)) (c : K) (hc : 0 < c) (L L' : Lin K)
-    (h : fitGeneralR eps bx bu rows = .ok L)
-    (h' : fitGeneralR eps bx bu (rows.map (Row.scaleW c)) = .ok L') : L' = L := by
+    (h : fitGeneralR eps epsD bx bu rows = .ok L)
+    (h' : fitGeneralR eps epsD bx bu (rows.map (Row.scaleW c)) = .ok L') : L' = L := by
   obtain ⟨c', _, hg⟩ := wsel_scaleW' bx bu c hc
-  obtain ⟨_, _, hs⟩ := fitGeneralR_ok eps bx bu rows L h
-  obtain ⟨_, _, hs'⟩ := fitGeneralR_ok eps bx bu _ L' h'
+  obtain ⟨_, _, hs⟩ := fitGeneralR_ok eps epsD bx bu rows L h
+  obtain ⟨_, _, hs'⟩ := fitGeneralR_ok eps epsD bx bu _ L' h'
   have hN := gsolve_normalEq eps heps _ rows L hs
   have hN' := normalEq_reweight (Row.scaleW c) (fun _ => rfl) c' _ (wsel bx bu) rows
     (fun r _ => hg r) L hN
   exact (gsolve_normalEq_unique eps heps _ _ L' hs' L hN').symm
 
 /-- the error cases of `fit_general` that do not depend on `eps` are unchanged as well -/
-theorem weight_scale_invariant_general_errors (eps : K) (bx bu : Bool) (rows : List (Row K))
+theorem weight_scale_invariant_general_errors (eps epsD : K) (bx bu : Bool) (rows : List (Row K))
     (c : K) (hc : 0 < c) (e : FitErr) (he : e ≠ .singular) :
-    fitGeneralR eps bx bu (rows.map (Row.scaleW c)) = .error e ↔ fitGeneralR eps bx bu rows = .error e := by
+    fitGeneralR eps epsD bx bu (rows.map (Row.scaleW c)) = .error e ↔ fitGeneralR eps epsD bx bu rows = .error e := by
   obtain ⟨c', hc', hg⟩ := wsel_scaleW' bx bu c hc
-  rw [fitGeneralR_eq, fitGeneralR_eq, List.length_map,
+  rw [fitGeneralR_error_iff _ _ _ _ _ e he, fitGeneralR_error_iff _ _ _ _ _ e he, List.length_map,
     reweight_weightsBad (Row.scaleW c) bx bu rows c' hc' (fun r _ => hg r)]
-  split
-  · rfl
-  split
-  · rfl
-  · have hS : ∀ s : GSums K, gsolve eps s ≠ .error e := by
-      intro s hs
-      unfold gsolve at hs
-      split at hs
-      · injection hs with hs; exact he hs.symm
-      · cases hs
-    exact ⟨fun h => absurd h (hS _), fun h => absurd h (hS _)⟩
 
 /-- constant weight arrays (`wxy ≡ cx`, `wuv ≡ cu`, either or both) give the same `fit_shifts`
 as no weights -/
@@ -109,14 +101,14 @@ theorem uniform_eq_none_shift (bx bu : Bool) (rows : List (Row K)) (cx cu : K) (
     simp [weightsBad]
 
 /-- … and the same `fit_general` (whenever both return) -/
-theorem uniform_eq_none_general (eps : K) (heps : 0 < eps) (bx bu : Bool) (rows : List (Row K))
+theorem uniform_eq_none_general (eps epsD : K) (heps : 0 < eps) (bx bu : Bool) (rows : List (Row K))
     (cx cu : K) (hcx : 0 < cx) (hcu : 0 < cu) (hx : bx = true → ∀ r ∈ rows, r.wx = cx)
     (hu : bu = true → ∀ r ∈ rows, r.wu = cu) (L L' : Lin K)
-    (h : fitGeneralR eps false false rows = .ok L) (h' : fitGeneralR eps bx bu rows = .ok L') :
+    (h : fitGeneralR eps epsD false false rows = .ok L) (h' : fitGeneralR eps epsD bx bu rows = .ok L') :
     L' = L := by
   obtain ⟨c, hc, hg⟩ := wsel_uniform bx bu rows cx cu hcx hcu hx hu
-  obtain ⟨_, _, hs⟩ := fitGeneralR_ok eps false false rows L h
-  obtain ⟨_, _, hs'⟩ := fitGeneralR_ok eps bx bu rows L' h'
+  obtain ⟨_, _, hs⟩ := fitGeneralR_ok eps epsD false false rows L h
+  obtain ⟨_, _, hs'⟩ := fitGeneralR_ok eps epsD bx bu rows L' h'
   have hN := gsolve_normalEq eps heps _ rows L hs
   have hN' := normalEq_reweight id (fun _ => rfl) c _ (wsel bx bu) rows
     (fun r hr => by rw [id, hg r hr]; simp [wsel]) L hN
@@ -125,24 +117,17 @@ theorem uniform_eq_none_general (eps : K) (heps : 0 < eps) (bx bu : Bool) (rows 
 
 /-- with uniform weights `fit_general` is rejected for bad weights or too few points exactly when
 the unweighted fit is -/
-theorem uniform_eq_none_general_errors (eps : K) (bx bu : Bool) (rows : List (Row K))
+theorem uniform_eq_none_general_errors (eps epsD : K) (bx bu : Bool) (rows : List (Row K))
     (cx cu : K) (hcx : 0 < cx) (hcu : 0 < cu) (hx : bx = true → ∀ r ∈ rows, r.wx = cx)
     (hu : bu = true → ∀ r ∈ rows, r.wu = cu) (e : FitErr) (he : e ≠ .singular) :
-    fitGeneralR eps bx bu rows = .error e ↔ fitGeneralR eps false false rows = .error e := by
+    fitGeneralR eps epsD bx bu rows = .error e ↔ fitGeneralR eps epsD false false rows = .error e := by
   obtain ⟨c, hc, hg⟩ := wsel_uniform bx bu rows cx cu hcx hcu hx hu
-  rw [fitGeneralR_eq, fitGeneralR_eq]
+  rw [fitGeneralR_error_iff _ _ _ _ _ e he, fitGeneralR_error_iff _ _ _ _ _ e he]
   split
   · rfl
   next hn =>
     rw [uniform_weightsBad bx bu rows c hc hg 3 hn]
-    have hS : ∀ s : GSums K, gsolve eps s ≠ .error e := by
-      intro s hs
-      unfold gsolve at hs
-      split at hs
-      · injection hs with hs; exact he hs.symm
-      · cases hs
-    simp only [weightsBad, Bool.or_self, Bool.false_and, Bool.false_eq_true, if_false]
-    exact ⟨fun h => absurd h (hS _), fun h => absurd h (hS _)⟩
+    simp [weightsBad]
 
 /-- … and the same `fit_rscale` / `fit_rshift` (over `ℝ`: the unweighted branch of the code uses
 un-normalised second moments, which are `n` times the weighted ones; the angle only depends on
@@ -219,41 +204,31 @@ normal equations: the residuals of the conjugated map on the transformed data ar
 original ones, so they stay orthogonal to `(u', v', 1)`.
 Special cases: one similarity on both sets (`A = B`), a similarity on one set alone
 (`A` or `B` the identity), translations, independent scalings of the axes. -/
-theorem similarity_conj_general (eps : K) (heps : 0 < eps) (bx bu : Bool) (A B : Aff K)
+theorem similarity_conj_general (eps epsD : K) (heps : 0 < eps) (bx bu : Bool) (A B : Aff K)
     (hB : B.m.det ≠ 0) (rows : List (Row K)) (L L' : Lin K)
-    (h : fitGeneralR eps bx bu rows = .ok L)
-    (h' : fitGeneralR eps bx bu (rows.map (Row.move A B)) = .ok L') : L' = Lin.conj A B L := by
-  obtain ⟨_, _, hs⟩ := fitGeneralR_ok eps bx bu rows L h
-  obtain ⟨_, _, hs'⟩ := fitGeneralR_ok eps bx bu _ L' h'
+    (h : fitGeneralR eps epsD bx bu rows = .ok L)
+    (h' : fitGeneralR eps epsD bx bu (rows.map (Row.move A B)) = .ok L') : L' = Lin.conj A B L := by
+  obtain ⟨_, _, hs⟩ := fitGeneralR_ok eps epsD bx bu rows L h
+  obtain ⟨_, _, hs'⟩ := fitGeneralR_ok eps epsD bx bu _ L' h'
   have hN := gsolve_normalEq eps heps _ rows L hs
   have hN' := normalEq_move A B hB _ (wsel bx bu) (wsel_move bx bu A B) rows L hN
   exact (gsolve_normalEq_unique eps heps _ _ L' hs' _ hN').symm
 
 /-- the rejections of `fit_general` that do not depend on `eps` (too few points, bad weights) do
 not depend on the coordinates -/
-theorem similarity_conj_general_errors (eps : K) (bx bu : Bool) (A B : Aff K) (rows : List (Row K))
+theorem similarity_conj_general_errors (eps epsD : K) (bx bu : Bool) (A B : Aff K) (rows : List (Row K))
     (e : FitErr) (he : e ≠ .singular) :
-    fitGeneralR eps bx bu (rows.map (Row.move A B)) = .error e ↔ fitGeneralR eps bx bu rows = .error e := by
-  rw [fitGeneralR_eq, fitGeneralR_eq, List.length_map, weightsBad_move]
-  split
-  · rfl
-  split
-  · rfl
-  · have hS : ∀ s : GSums K, gsolve eps s ≠ .error e := by
-      intro s hs
-      unfold gsolve at hs
-      split at hs
-      · injection hs with hs; exact he hs.symm
-      · cases hs
-    exact ⟨fun h => absurd h (hS _), fun h => absurd h (hS _)⟩
+    fitGeneralR eps epsD bx bu (rows.map (Row.move A B)) = .error e ↔ fitGeneralR eps epsD bx bu rows = .error e := by
+  rw [fitGeneralR_error_iff _ _ _ _ _ e he, fitGeneralR_error_iff _ _ _ _ _ e he, List.length_map,
+    weightsBad_move]
 
 /-- translations: the matrix is unchanged, the shift changes by `a − F·b` -/
-theorem translation_conj_general (eps : K) (heps : 0 < eps) (bx bu : Bool) (a b : V2 K)
-    (rows : List (Row K)) (L L' : Lin K) (h : fitGeneralR eps bx bu rows = .ok L)
-    (h' : fitGeneralR eps bx bu (rows.map (Row.move (Aff.trans a) (Aff.trans b))) = .ok L') :
+theorem translation_conj_general (eps epsD : K) (heps : 0 < eps) (bx bu : Bool) (a b : V2 K)
+    (rows : List (Row K)) (L L' : Lin K) (h : fitGeneralR eps epsD bx bu rows = .ok L)
+    (h' : fitGeneralR eps epsD bx bu (rows.map (Row.move (Aff.trans a) (Aff.trans b))) = .ok L') :
     L' = Lin.transl a b L := by
   have hdet : (Aff.trans b).m.det ≠ 0 := by simp [Aff.trans, M2.one, M2.det]
-  rw [similarity_conj_general eps heps bx bu _ _ hdet rows L L' h h', conj_trans]
+  rw [similarity_conj_general eps epsD heps bx bu _ _ hdet rows L L' h h', conj_trans]
 
 /-! ## changes of coordinates: `fit_rscale` / `fit_rshift` -/
 
@@ -359,20 +334,89 @@ theorem centre_independent_rscale [HasTrig K] (bx bu : Bool) (scale : Option K) 
   exact except_map_id' _ _ (eff_transl c)
 
 /-- for `fit_general`: whenever the fit of the centred and of the uncentred data both return -/
-theorem centre_independent_general (eps : K) (heps : 0 < eps) (bx bu : Bool) (c : V2 K)
-    (rows : List (Row K)) (L L' : Lin K) (h : fitGeneralR eps bx bu rows = .ok L)
-    (h' : fitGeneralR eps bx bu (rows.map (Row.centre c)) = .ok L') : Lin.eff c L' = L := by
+theorem centre_independent_general (eps epsD : K) (heps : 0 < eps) (bx bu : Bool) (c : V2 K)
+    (rows : List (Row K)) (L L' : Lin K) (h : fitGeneralR eps epsD bx bu rows = .ok L)
+    (h' : fitGeneralR eps epsD bx bu (rows.map (Row.centre c)) = .ok L') : Lin.eff c L' = L := by
   rw [centre_eq_move] at h'
-  rw [translation_conj_general eps heps bx bu _ _ rows L L' h h', eff_transl]
+  rw [translation_conj_general eps epsD heps bx bu _ _ rows L L' h h', eff_transl]
 
 /-- two different centres report the same effective map (all three fitters; here for the
 general fit, where it needs both fits to return) -/
-theorem centre_independent (eps : K) (heps : 0 < eps) (bx bu : Bool) (c c' : V2 K)
-    (rows : List (Row K)) (L L' L0 : Lin K) (h0 : fitGeneralR eps bx bu rows = .ok L0)
-    (h : fitGeneralR eps bx bu (rows.map (Row.centre c)) = .ok L)
-    (h' : fitGeneralR eps bx bu (rows.map (Row.centre c')) = .ok L') : Lin.eff c L = Lin.eff c' L' := by
-  rw [centre_independent_general eps heps bx bu c rows L0 L h0 h,
-    centre_independent_general eps heps bx bu c' rows L0 L' h0 h']
+theorem centre_independent (eps epsD : K) (heps : 0 < eps) (bx bu : Bool) (c c' : V2 K)
+    (rows : List (Row K)) (L L' L0 : Lin K) (h0 : fitGeneralR eps epsD bx bu rows = .ok L0)
+    (h : fitGeneralR eps epsD bx bu (rows.map (Row.centre c)) = .ok L)
+    (h' : fitGeneralR eps epsD bx bu (rows.map (Row.centre c')) = .ok L') : Lin.eff c L = Lin.eff c' L' := by
+  rw [centre_independent_general eps epsD heps bx bu c rows L0 L h0 h,
+    centre_independent_general eps epsD heps bx bu c' rows L0 L' h0 h']
+
+/-! ## the collinearity guard of `fit_general`
+
+`fit_general` refuses (`SingularMatrixError`) point sets whose second central moments satisfy
+`cuu*cvv − cuv² ≤ epsD·((cuu + cvv)/2)²` (`TW.collinearGuard`, `epsD = 2^-52` in the code).  The
+answer of this test is the same in every frame and labelling C08 relates, so that the relations
+above never compare a refused fit with a returned one because of the guard.  (The remaining
+`singular` exit, a pivot of `inv` below `eps = 2e-308`, is not scale-free: see
+`weight_scale_invariant_general`.) -/
+
+/-- relabelling does not change the answer of the guard -/
+theorem guard_perm_invariant (epsD : K) {rows rows' : List (Row K)} (h : rows.Perm rows')
+    (bx bu : Bool) : generalGuardR epsD bx bu rows' = generalGuardR epsD bx bu rows :=
+  perm_generalGuardR h epsD bx bu
+
+/-- multiplying all weights by one positive constant multiplies the three central moments by it:
+same answer -/
+theorem guard_weight_scale_invariant (epsD : K) (bx bu : Bool) (rows : List (Row K)) (c : K)
+    (hc : 0 < c) :
+    generalGuardR epsD bx bu (rows.map (Row.scaleW c)) = generalGuardR epsD bx bu rows := by
+  obtain ⟨c', hc', hg⟩ := wsel_scaleW' bx bu c hc
+  exact reweight_generalGuardR (Row.scaleW c) (fun _ => rfl) bx bu rows c' hc' (fun r _ => hg r) epsD
+
+/-- constant weight arrays give the same answer as no weights -/
+theorem guard_uniform_eq_none (epsD : K) (bx bu : Bool) (rows : List (Row K)) (cx cu : K)
+    (hcx : 0 < cx) (hcu : 0 < cu) (hx : bx = true → ∀ r ∈ rows, r.wx = cx)
+    (hu : bu = true → ∀ r ∈ rows, r.wu = cu) :
+    generalGuardR epsD bx bu rows = generalGuardR epsD false false rows := by
+  obtain ⟨c, hc, hg⟩ := wsel_uniform bx bu rows cx cu hcx hcu hx hu
+  exact uniform_generalGuardR bx bu rows c hc hg epsD
+
+/-- **a similarity `B = λR (+ translation)` of the `uv` points — with any affine map `A` of `xy`,
+in particular the matching one — does not change the answer of the guard**: the matrix of central
+moments becomes `B_lin C B_linᵀ`, so `cuu*cvv − cuv²` and `((cuu + cvv)/2)²` are both multiplied
+by `λ⁴`.  Stated for inputs that reach the guard (at least three rows, valid weights). -/
+theorem guard_similarity_invariant (epsD : K) (bx bu : Bool) (A B : Aff K) (hB : B.m.IsSim)
+    (hB0 : B.m.det ≠ 0) (rows : List (Row K)) (hn : 3 ≤ rows.length)
+    (hw : generalBad (rowsWxy bx rows) (rowsWuv bu rows) = false) :
+    generalGuardR epsD bx bu (rows.map (Row.move A B)) = generalGuardR epsD bx bu rows := by
+  rw [generalBad_rows] at hw
+  exact generalGuardR_move epsD bx bu A B hB hB0 rows
+    (ne_of_gt (wsel_sum_pos bx bu rows (by omega) hw))
+
+/-- the centring of `iter_linear_fit` (both sets minus `center`) does not change it either -/
+theorem guard_centre_invariant (epsD : K) (bx bu : Bool) (c : V2 K) (rows : List (Row K))
+    (hn : 3 ≤ rows.length) (hw : generalBad (rowsWxy bx rows) (rowsWuv bu rows) = false) :
+    generalGuardR epsD bx bu (rows.map (Row.centre c)) = generalGuardR epsD bx bu rows := by
+  rw [centre_eq_move]
+  exact guard_similarity_invariant epsD bx bu _ _ isSim_one
+    (by simp [Aff.trans, M2.one, M2.det]) rows hn hw
+
+/-- consequently `fit_general` is refused *by the guard* in one frame exactly when it is in the
+other: with the checks that precede it (`similarity_conj_general_errors`) every exit of
+`fit_general` except the pivot threshold of `inv` is frame-independent -/
+theorem similarity_guard_exit (eps epsD : K) (bx bu : Bool) (A B : Aff K) (hB : B.m.IsSim)
+    (hB0 : B.m.det ≠ 0) (rows : List (Row K))
+    (hg : generalGuardR epsD bx bu rows = true) :
+    (∃ e, fitGeneralR eps epsD bx bu rows = .error e) ∧
+    (∃ e, fitGeneralR eps epsD bx bu (rows.map (Row.move A B)) = .error e) := by
+  rw [fitGeneralR_eq, fitGeneralR_eq, List.length_map, weightsBad_move]
+  split
+  · exact ⟨⟨_, rfl⟩, ⟨_, rfl⟩⟩
+  next hn =>
+  split
+  · exact ⟨⟨_, rfl⟩, ⟨_, rfl⟩⟩
+  next hb =>
+    rw [generalGuardR_move epsD bx bu A B hB hB0 rows
+      (ne_of_gt (wsel_sum_pos bx bu rows hn (by simpa using hb))), hg]
+    exact ⟨⟨_, rfl⟩, ⟨_, rfl⟩⟩
 
 /-! ## the retained set of the clipping loop -/
 
@@ -473,16 +517,28 @@ example : rows0.Perm rows0.reverse := (List.reverse_perm rows0).symm
 -- `fit_general` returns on the original and on the transformed data (both hypotheses of
 -- `similarity_conj_general`, `weight_scale_invariant_general`, `centre_independent_general`), in
 -- the doubly weighted mode
-example : (fitGeneralR (1 / 1000000) true true rows0).isOk = true := by decide +kernel
-example : (fitGeneralR (1 / 1000000) true true (rows0.map (Row.move Q0 Q1))).isOk = true := by decide +kernel
-example : (fitGeneralR (1 / 1000000) true true (rows0.map (Row.scaleW 3))).isOk = true := by decide +kernel
-example : (fitGeneralR (1 / 1000000) true true (rows0.map (Row.centre ⟨7, -2⟩))).isOk = true := by
+example : (fitGeneralR (1 / 1000000) (1 / 4503599627370496) true true rows0).isOk = true := by decide +kernel
+example : (fitGeneralR (1 / 1000000) (1 / 4503599627370496) true true (rows0.map (Row.move Q0 Q1))).isOk = true := by decide +kernel
+example : (fitGeneralR (1 / 1000000) (1 / 4503599627370496) true true (rows0.map (Row.scaleW 3))).isOk = true := by decide +kernel
+example : (fitGeneralR (1 / 1000000) (1 / 4503599627370496) true true (rows0.map (Row.centre ⟨7, -2⟩))).isOk = true := by
+  decide +kernel
+-- the guard (code threshold 2^-52) does not fire on these rows in any of the frames above, and
+-- fires on collinear rows in both frames
+example : generalGuardR (1 / 4503599627370496) true true rows0 = false := by decide +kernel
+example : generalGuardR (1 / 4503599627370496) true true (rows0.map (Row.move Q0 Q1)) = false := by
+  decide +kernel
+example : 3 ≤ rows0.length ∧ generalBad (rowsWxy true rows0) (rowsWuv true rows0) = false := by
+  decide +kernel
+def rowsLine : List (Row ℚ) :=
+  [⟨⟨1, 2, 0, 0⟩, 1, 2⟩, ⟨⟨3, 1, 1, 2⟩, 2, 1⟩, ⟨⟨2, 5, 2, 4⟩, 1, 1⟩, ⟨⟨5, 5, -3, -6⟩, 3, 1⟩]
+example : generalGuardR (1 / 4503599627370496) true false rowsLine = true ∧
+    generalGuardR (1 / 4503599627370496) true false (rowsLine.map (Row.move Q0 Q1)) = true := by
   decide +kernel
 -- the conjugation is visible on the numbers: the matrix entry m00 of the general fit before and
 -- after, and of the shift fit
-example : (fitGeneralR (1 / 1000000) false false rows0).toOption.map (fun L => 10 * L.m01) = some 7 := by
+example : (fitGeneralR (1 / 1000000) (1 / 4503599627370496) false false rows0).toOption.map (fun L => 10 * L.m01) = some 7 := by
   decide +kernel
-example : (fitGeneralR (1 / 1000000) false false (rows0.map (Row.move Q0 Q0))).toOption.map
+example : (fitGeneralR (1 / 1000000) (1 / 4503599627370496) false false (rows0.map (Row.move Q0 Q0))).toOption.map
     (fun L => 10 * L.m10) = some (-7) := by decide +kernel
 example : (fitShiftsR true false rows0).toOption.map (fun L => 7 * L.sx) = some 16 := by decide +kernel
 example : (fitShiftsR true false (rows0.map (Row.move Q0 Q0))).toOption.map (fun L => 7 * L.sy) = some 32 := by
